@@ -407,4 +407,16 @@ pub broadcast axiom fn into_string_view_str(v: &str) ensures #[trigger] into_str
 pub broadcast axiom fn into_string_view_string(v: String) ensures #[trigger] into_string_view::<String>(v) == v@;
 #[verifier::external_body]
 pub fn vx_into_string<V: Into<String>>(v: V) -> (r: String) ensures r@ == into_string_view(v) { v.into() }
+
+
+/// N10 wrappers tying `RangeBounds::{start_bound,end_bound}` of a GENERIC range to vstd's spec functions (vstd states this only for
+/// the concrete std range types; for any other implementor the spec functions are uninterpreted, so this is their definition)
+#[verifier::external_body]
+pub fn vx_start_bound<'a, T, R: core::ops::RangeBounds<T>>(r: &'a R) -> (b: core::ops::Bound<&'a T>)
+    ensures b == vstd::std_specs::range::RangeBoundsSpec::spec_start_bound(r)
+{ r.start_bound() }
+#[verifier::external_body]
+pub fn vx_end_bound<'a, T, R: core::ops::RangeBounds<T>>(r: &'a R) -> (b: core::ops::Bound<&'a T>)
+    ensures b == vstd::std_specs::range::RangeBoundsSpec::spec_end_bound(r)
+{ r.end_bound() }
 }
